@@ -290,7 +290,11 @@ func (re *Regexp) forEachStringMatch(s string, n int, f func(*regexp2.Match)) {
 	for m != nil && n != 0 {
 		if m.RuneLength != 0 || m.RuneIndex != prevEnd {
 			f(m)
+			// where this match ends in scan direction
 			prevEnd = m.RuneIndex + m.RuneLength
+			if re.re.RightToLeft() {
+				prevEnd = m.RuneIndex
+			}
 			if n > 0 {
 				n--
 				if n == 0 {
